@@ -7,6 +7,7 @@ from ..interp_prop import InterpProp
 
 class C13(InterpProp):
     id = 'C13'
+    anomaly_tags = ('time',)
     # observables compared with the model (see InterpProp.normalize)
     cmp_eff = ('guard', 'cond', 'meta')
     cmp_meta = ('step started',)
@@ -14,7 +15,7 @@ class C13(InterpProp):
     cmp_slot = ('time', 'ctx')
     cmp_callbacks = False
     cmp_err = 'class'
-    quick_cases = 800
+    quick_cases = 2000
     thorough_cases = 30000
     n_ops = 40
     rule = ('random charts whose guards are mostly single after(d)/idle(d) predicates with thresholds around the exact '
